@@ -137,7 +137,7 @@ func checkC02(w *World, r *Report) {
 	if ir.worker != nil {
 		var callers []string
 		for _, fn := range w.Funcs {
-			if fn.Synthetic != "" {
+			if fn.Synthetic != "" || fn == ir.workerWrap {
 				continue
 			}
 			for _, ci := range w.callsIn(fn, EvCall("worker", ir.worker)) {
